@@ -26,6 +26,7 @@ inductive ErrKind
   | noPrefix                 -- noPrefixParseFnError
   | badFloat                 -- parseFloatLiteral
   | lambdaParams             -- parseLambdaMulti
+  | illegalParam             -- parameter: invalid character in a parameter list
   deriving DecidableEq, Repr
 
 inductive Res (α : Type)
@@ -118,7 +119,8 @@ def parseComment : PM ONode := do
   let sameLineAsNext := !st.nextNewline
   let r := Node.comment st.cur.tk (!st.prevNewline) sameLineAsNext
   if st.cur.type = .BLOCKCOMMENT then
-    if !bytesEndWith st.cur.lit [42, 47] then
+    -- a closed block comment is at least `/**/` (the unterminated `/*/` also ends in `*/`)
+    if st.cur.lit.length < 4 || !bytesEndWith st.cur.lit [42, 47] then
       setCont
       pure none
     else pure (some r)
@@ -176,7 +178,15 @@ def okParamList : NList → Option (Option Tk × Bool)
     else if t.type != .IDENT then some (some t, false)
     else okParamList rest
 
-/-- `for p.peekTokenIs(token.COMMA) { nextToken; nextToken; append ident }` -/
+/-- `p.parameter()`: any token is a parameter name, except an invalid character (parse error) -/
+def parameter (s : TokStream) : PM ONode := do
+  let st ← getSt
+  if st.cur.type = .ILLEGAL then
+    errorLine s
+    pushErr .illegalParam
+  pure (some (.ident st.cur.tk))
+
+/-- `for p.peekTokenIs(token.COMMA) { nextToken; nextToken; append parameter }` -/
 def parseFunctionParametersLoop (s : TokStream) : Nat → NList → PM NList
   | 0, _ => outOfFuel
   | fuel + 1, acc => do
@@ -184,8 +194,8 @@ def parseFunctionParametersLoop (s : TokStream) : Nat → NList → PM NList
     if st.peek.type = .COMMA then
       nextToken s
       nextToken s
-      let st ← getSt
-      parseFunctionParametersLoop s fuel (acc ++ [some (.ident st.cur.tk)])
+      let id ← parameter s
+      parseFunctionParametersLoop s fuel (acc ++ [id])
     else pure acc
 
 def parseFunctionParameters (s : TokStream) (fuel : Nat) : PM (NList × Bool) := do
@@ -195,8 +205,8 @@ def parseFunctionParameters (s : TokStream) (fuel : Nat) : PM (NList × Bool) :=
     pure ([], false)
   else
     nextToken s
-    let st ← getSt
-    let ids ← parseFunctionParametersLoop s fuel [some (.ident st.cur.tk)]
+    let id ← parameter s
+    let ids ← parseFunctionParametersLoop s fuel [id]
     if !(← expectPeek s .RPAREN) then pure ([], false)
     else
       let st ← getSt
@@ -234,7 +244,10 @@ def parseExpression (s : TokStream) : Nat → Nat → PM ONode
     else
       match lookup prefixRegs st.cur.type with
       | none =>
-        if st.peek.type != .LAMBDA then noPrefixParseFnError s
+        if st.peek.type != .LAMBDA then   -- `… =>`: to make `() => { … }` without errors
+          -- `()` at the end of the line: the `=>` of the lambda may be on the next one
+          if st.peek.type = .EOL && st.cur.type = .RPAREN && (st.prev.map (·.type)) == some .LPAREN then setCont
+          else noPrefixParseFnError s
         pure none
       | some prefixFn =>
         let leftExp ← prefixDispatch s fuel prefixFn
